@@ -31,7 +31,7 @@
 (***************************************************************************)
 EXTENDS Observers, TLC
 
-CONSTANTS Impl,       \* "ref" | "pinned" | "f16" | "costkeys" | "optreset" | "wrapmode" | "rootmode"
+CONSTANTS Impl,       \* "ref" | "pinned" | "f16" | "costkeys" | "optreset" | "wrapmode" | "rootmode" | "valuesonly"
           Half,       \* "modes" | "options"
           Temps,      \* temperatures x 1000 (contains 1000, the constructor default)
           Kind,       \* "pit" | "mps" | "sn"
@@ -42,13 +42,13 @@ CONSTANTS Impl,       \* "ref" | "pinned" | "f16" | "costkeys" | "optreset" | "w
 VARIABLES core, cs, par, init, hist
 vars == <<core, cs, par, init, hist>>
 
-NoCore  == [wt |-> FALSE, st |-> FALSE, theta |-> "-", bn |-> 0, frz |-> FALSE, dk |-> {}, opt |-> DefaultOpt, samp |-> "-"]
+NoCore  == [wt |-> FALSE, st |-> FALSE, theta |-> "-", bn |-> 0, frz |-> FALSE, gl |-> TRUE, dk |-> {}, opt |-> DefaultOpt, samp |-> "-"]
 HardSet == IF Kind = "pit" THEN {FALSE} ELSE BOOLEAN
 
 Opts == [temp : Temps, hard : BOOLEAN, gumbel : BOOLEAN, disable : BOOLEAN,
          tf : BOOLEAN, trf : BOOLEAN, td : BOOLEAN, dc : BOOLEAN]
 
-TypeOK == /\ core \in [wt : BOOLEAN, st : BOOLEAN, theta : {"-", "soft", "hard"}, bn : 0..MaxBn, frz : BOOLEAN, dk : SUBSET {"costkeys"},
+TypeOK == /\ core \in [wt : BOOLEAN, st : BOOLEAN, theta : {"-", "soft", "hard"}, bn : 0..MaxBn, frz : BOOLEAN, gl : BOOLEAN, dk : SUBSET {"costkeys"},
                        opt : Opts, samp : {"-", "sm", "gs", "none"}]
           /\ cs \in Specs
           /\ par \in [hasbn : BOOLEAN, maxbn : {MaxBn}]
@@ -65,7 +65,7 @@ Init == \E md \in FreshModes, hard \in (IF Half = "modes" THEN HardSet ELSE {FAL
            c0 \in (IF Half = "modes" THEN {"A", "D"} ELSE {"A"}) :
           LET o0 == [DefaultOpt EXCEPT !.hard = hard, !.gumbel = gum] IN
           /\ par = [hasbn |-> Kind # "mps", maxbn |-> MaxBn]
-          /\ core = [wt |-> md[1], st |-> md[2], theta |-> Sampled(Kind, hard, md[2]), bn |-> 0, frz |-> FALSE, dk |-> {},
+          /\ core = [wt |-> md[1], st |-> md[2], theta |-> Sampled(Kind, hard, md[2]), bn |-> 0, frz |-> FALSE, gl |-> TRUE, dk |-> {},
                      opt |-> o0, samp |-> SamplerOf(Kind, o0)]
           /\ cs = c0
           /\ init = IF TrackHist THEN [core |-> core, cs |-> c0] ELSE [core |-> NoCore, cs |-> "A"]
@@ -74,6 +74,7 @@ Init == \E md \in FreshModes, hard \in (IF Half = "modes" THEN HardSet ELSE {FAL
 InHalf(a) == IF Half = "modes" THEN a.a # "upd" ELSE a.a \notin {"setcs", "getcost", "mode", "seedmode", "inspect", "freezebn"}
 
 Do(a) == /\ Enabled(Kind, cs, a) /\ InHalf(a)
+         /\ (TrackHist /\ a.a = "setcs" => a.how = "s")     \* (the history configs enumerate contents, not objects)
          /\ (TrackHist => Len(hist) < MaxLen)
          /\ core' = ImplNext(Impl, Kind, par, core, a)
          /\ cs' = IF a.a = "setcs" THEN a.c ELSE cs
@@ -84,7 +85,7 @@ Export(nobn) == Do([a |-> "export", nobn |-> nobn])
 Summary      == Do([a |-> "summary"])
 Cost         == Do([a |-> "cost"])
 GetCost(n)   == Do([a |-> "getcost", n |-> n])
-SetCS(c)     == Do([a |-> "setcs", c |-> c])
+SetCS(c, h)  == Do([a |-> "setcs", c |-> c, how |-> h])
 Forward      == Do([a |-> "forward"])
 Mode(v)      == Do([a |-> "mode", v |-> v])
 SeedMode(v)  == Do([a |-> "seedmode", v |-> v])
@@ -97,7 +98,7 @@ OptVals(o)   == IF o = "temp" THEN Temps ELSE {0, 1}
 Next == \/ \E b \in BOOLEAN : Export(b)
         \/ Summary \/ Cost
         \/ \E n \in {"a", "b"} : GetCost(n)
-        \/ \E c \in Specs : SetCS(c)
+        \/ \E c \in Specs, h \in {"s", "f", "i"} : SetCS(c, h)
         \/ Forward
         \/ \E v \in BOOLEAN : Mode(v)
         \/ \E v \in BOOLEAN : SeedMode(v)
@@ -129,7 +130,7 @@ ObserversNeutral ==
        /\ (\A n \in {"a", "b"} : GetCost(n) => core' = core /\ cs' = cs)]_vars
 
 \* the setter of the cost specification touches the specification only
-SetterFrame == [][\A c \in Specs : SetCS(c) => core' = core /\ cs' = c]_vars
+SetterFrame == [][\A c \in Specs, h \in {"s", "f", "i"} : SetCS(c, h) => core' = core /\ cs' = c]_vars
 
 \* an option call changes the option it names (and the sampler it selects), nothing else
 OptionFrame ==
@@ -138,7 +139,7 @@ OptionFrame ==
           /\ \A f \in DOMAIN core.opt \ {o} : core'.opt[f] = core.opt[f]
           /\ core'.samp = SamplerOf(Kind, core'.opt)
           /\ core'.wt = core.wt /\ core'.st = core.st /\ core'.theta = core.theta /\ core'.bn = core.bn /\ core'.dk = core.dk
-          /\ core'.frz = core.frz
+          /\ core'.frz = core.frz /\ core'.gl = core.gl
           /\ cs' = cs]_vars
 
 \* the sampler in force is the one the options (as the user set them) select
